@@ -82,7 +82,10 @@ def conv_interior(c):
 def check_scale(res, tag, s, count, want=1.0):
     val = s * s * count
     res.stat(tag, val)
-    tol = 1e-6 if tag.startswith("rms_norm") else TOL  # rms_norm's denominator is float32 by design
+    # rms_norm's denominator is float32 by design: every row carries an independent ~6e-8 relative error, which the weight-gradient sum
+    # over rows amplifies when its terms cancel (seen: 1.1e-6, 3 of 18000 thorough cases). One missing / extra term among the <= ~10^3
+    # counted would still move the product by >= 1e-3.
+    tol = 1e-5 if tag.startswith("rms_norm") else TOL
     if not abs(val - want) <= tol:
         res.fail(f"C03.{tag}", f"scale^2 x terms = {val!r} (scale={s!r}, measured terms={count!r})")
 
